@@ -18,7 +18,11 @@ CHECKS = {
    text="dr_exp, dl_exp, dr_expinv, dl_expinv, dr_rminus, dr_rminus_squarednorm and dr_action are validated against the series sum (-1)^k ad^k/(k+1)! and matrix identities in exact rationals, over all theta strata and a log sweep, translations to 1e3."),
  "C05": dict(design="5/C05", technique="TLC trace validation; Hessian oracle = Frechet derivative of Phi1 via the block-triangular identity, stacked layout defined in the spec",
    text="d2r_exp, d2r_expinv, d2l_exp, d2l_expinv, d2r_rminus, d2r_rminus_squarednorm are validated against directional derivatives of Phi1(-ad a) computed by certified series in the documented stacked layout (tolerance 1e-5 of the largest entry)."),
+ "C12": dict(design="5/C12", technique="TLC model checking of a refinement (implementation-shaped spline model vs curve algebra) + replay of TLC behaviours into the real Spline with state comparison through a probe hook + trace validation",
+   text="spec/SplineModel.tla models the five per-segment vectors and find_idx/operator()/concat_local/concat_global/crop as coded next to the denotational curve algebra of the property; TLC checks the refinement (value, velocity, acceleration at every grid time incl. knots and out of range, t_max) for every history in scope, and rejects the upstream crop arithmetic kept as a spec mutant. TLC-simulated behaviours are replayed on real Spline<K,double> objects and spec/TraceSpline.tla compares the logged representation (SplineProbe hook) with the model state after every action; random programs on R^2/SO3/SE2/SE3, K=1..5 (segments, ConstantVelocity, FixedCubic, +=, concat_global, crops on knots / in later segments / beyond the ends) are validated against the abstract curve in matrix space.",
+   note="Design model: G = R, K <= 3, bounded piece library and history length (evidence lists constants and TLC state counts). Group-valued programs are samples. Crop boundaries on a value jump are skipped (undetermined by the property). arclength is recorded but not yet judged. Trusted: TLC, JVM, BigRat/RFun overrides, the guarded SplineProbe friend declaration, recording code."),
 }
+CHECKS.pop(None, None)
 NA_DEFAULT = "check not built yet (work in progress, see DESIGN.md section 9)"
 
 m = {"version": 1, "setup_cmd": "./tools/setup.sh",
